@@ -5,6 +5,7 @@
 package c01
 
 import (
+	"bytes"
 	"encoding/json"
 	"fmt"
 	"sort"
@@ -45,6 +46,10 @@ type caseT struct {
 	Quoted  string `json:"quoted"`
 	Kind    string `json:"kind"`
 	GoTest  string `json:"go_test,omitempty"`
+	// Chunks: the reads of a reader run that is not byte-wise (byte-order-mark family)
+	Chunks      [][]byte `json:"chunks,omitempty"`
+	EOFWithLast bool     `json:"eof_with_last,omitempty"`
+	ZeroAt      int      `json:"zero_read_before_chunk,omitempty"`
 }
 
 func ctxOf(p *jsonref.PDA) string {
@@ -201,6 +206,9 @@ func run(c *core.Ctx) {
 		c.HarnessError("%s", h)
 	}
 	placement(c, m, e, sub, addGroup)
+	if sub == 0 {
+		bomFamily(c, m, e.Cfg)
+	}
 	// emit groups as failures
 	ids := make([]int, 0, len(perState))
 	for id := range perState {
@@ -298,6 +306,73 @@ func placement(c *core.Ctx, m *mach.M, e *bytemc.Explorer, sub int, addGroup fun
 	}
 }
 
+// bomFamily: the reader entry points look for a byte-order mark in local
+// variables before the machine starts, which no state key shows; so the mark,
+// its prefixes and near misses (one byte of the mark replaced) are put in
+// front of short texts and submitted to the []byte entry point and to the
+// reader under every split of the first six bytes into reads. The verdict must
+// be the reference's (the mark followed by nothing is left open, as in the search).
+func bomFamily(c *core.Ctx, m *mach.M, cfg mach.Config) {
+	pres := [][]byte{{0xEF}, {0xEF, 0xBB}, {0xEF, 0xBB, 0xBF}}
+	for i := 0; i < 3; i++ {
+		for _, b := range []byte{0x00, 0x20, 0x7F, 0x80, 0xBA, 0xBB, 0xBC, 0xBE, 0xBF, 0xC0, 0xEE, 0xEF, 0xF0, 0xFF} {
+			p := []byte{0xEF, 0xBB, 0xBF}
+			if p[i] != b {
+				p[i] = b
+				pres = append(pres, p)
+			}
+		}
+	}
+	for _, pre := range pres {
+		for _, suf := range []string{"", "1", " 1", "[]", "[1]", "\"x\"", "{\"a\":1}", "\xef\xbb\xbf1"} {
+			in := append(append([]byte{}, pre...), suf...)
+			r := jsonref.Run(in)
+			if r.NoDocument() && r.SawBOM {
+				continue
+			}
+			want := r.Accepting() || r.NoDocument()
+			judge := func(entry string, chunks [][]byte, cf mach.Config, o *mach.Out) {
+				c.Eval()
+				c.Add("bom_family_runs", 1)
+				if got := !o.Failed(); got != want {
+					kind := "rejects-valid"
+					if got {
+						kind = "accepts-invalid"
+					}
+					cl := "mark"
+					if len(pre) < 3 {
+						cl = "prefix-of-mark"
+					} else if !bytes.Equal(pre, []byte{0xEF, 0xBB, 0xBF}) {
+						cl = "near-miss"
+					}
+					cs := caseT{Machine: m.Name, Entry: entry, Input: in, Quoted: fmt.Sprintf("%q", in), Kind: kind, Chunks: chunks, EOFWithLast: cf.EOFWithLast, ZeroAt: cf.ZeroAt}
+					cs.GoTest = mach.GoTestEnv(m.Name, entry, chunks, false, cf, nil, false)
+					c.Fail(core.Sig("fe="+m.Name+"."+entry, "byte-order-mark", cl, kind), cs, len(in)*10+len(chunks), fmt.Sprintf("accept=%v", want), fmt.Sprintf("accept=%v err=%v panic=%v", got, o.Err, o.Panic))
+				}
+			}
+			judge("whole", [][]byte{in}, cfg, m.Whole(in, cfg))
+			for mask := 0; mask < 1<<uint(len(in)-1) && mask < 64; mask++ {
+				// bit i of mask set = a read boundary after byte i (the first six bytes)
+				var chunks [][]byte
+				start := 0
+				for i := 0; i < len(in)-1; i++ {
+					if i < 6 && mask>>uint(i)&1 == 1 {
+						chunks = append(chunks, in[start:i+1])
+						start = i + 1
+					}
+				}
+				chunks = append(chunks, in[start:])
+				judge("reader", chunks, cfg, m.Feed(chunks, cfg, false, false))
+				if len(chunks) <= 2 {
+					for _, cf := range append(envAnswers(cfg, len(chunks)), mach.Config{Multi: cfg.Multi, ZeroAt: 1}) {
+						judge("reader", chunks, cf, m.Feed(chunks, cf, false, false))
+					}
+				}
+			}
+		}
+	}
+}
+
 // envAnswers lists the reader's lawful answers other than the default (data,
 // nil)* (0, io.EOF): io.EOF delivered with the last of n chunks, and one read
 // of no bytes (0, nil) before the last chunk or before io.EOF.
@@ -353,6 +428,8 @@ func replay(c *core.Ctx, raw json.RawMessage) {
 	var o *mach.Out
 	if cs.Entry == "whole" {
 		o = m.Whole(cs.Input, mach.Config{})
+	} else if len(cs.Chunks) > 0 {
+		o = m.Feed(cs.Chunks, mach.Config{EOFWithLast: cs.EOFWithLast, ZeroAt: cs.ZeroAt}, false, false)
 	} else {
 		o = m.Feed(mach.Bytewise(cs.Input), mach.Config{}, false, false)
 	}
